@@ -65,7 +65,7 @@ def opLoad (S : Spec) (V : Env) (nmAutosar : Nat) (w : World) (k : Nat) (name : 
           if clash then (w, .no "err OverlappingDataError")
           else
             let fver : Nat → Option Nat := fun fid => ((m.files ++ [f]).find? (·.id == fid)).map (·.version)
-            let r2 := mergeElement S V fver f.id st.ver (kids.size + m.rootKids.size + 2) m.rootHdr m.rootKids (m.files.map (·.id)) kids
+            let r2 := mergeElement S V fver f.id st.ver (kids.size + m.rootKids.size + 2) m.rootHdr m.rootKids m.rootHdr.files kids
             match r2.2 with
             | some _ => (w, .no "unsupported")
             | none =>
